@@ -58,7 +58,19 @@ class CSSMediaRule(cssrule.CSSRuleRules):
         """Return serialized property cssText."""
         return cssutils.ser.do_CSSMediaRule(self)
 
-    def _setCssText(self, cssText):  # noqa: C901
+    def _setCssText(self, cssText):
+        """see ``__parseCssText``, additionally media and rules are kept if
+        setting raises"""
+        oldMedia = self._media
+        oldCssRules = self._cssRules
+        try:
+            self.__parseCssText(cssText)
+        except Exception:
+            self._media = oldMedia
+            self._cssRules = oldCssRules
+            raise
+
+    def __parseCssText(self, cssText):  # noqa: C901
         """
         :param cssText:
             a parseable string or a tuple of (cssText, dict-of-namespaces)
